@@ -41,6 +41,8 @@ def equiv(op, il, mres):
     # the locator found the blobs; the harness' fake blobs then fail PKCS#7 parsing, which is outside the model
     if f[1] == "locate" and il == "err pkcs7" and mres.startswith("ok"):
         return True
+    if f[1] == "append" and il.startswith("ok") and mres == "ok any":
+        return True
     if f[1] == "mutate" and il.startswith("ok") and mres.startswith("ok"):
         a, b = il.split(" ")[1:], mres.split(" ")[1:]
         # "any": the mutation hit the PKCS#7 blob itself, whose verification is outside the model
@@ -93,6 +95,9 @@ def predicate(prop, op, il, mres, tag):
             if not ok:
                 return ("Relic.Props.C03.pe_payload_preserved", "input bytes outside [dd,dd+8) below origSize unchanged",
                         "payload bytes moved or changed by signing")
+    if f[1] == "append" and il == "ok pass":
+        return ("Relic.Props.C02.pe_no_trailing", "fail",
+                "content appended after the certificate table (size field enlarged by %s) and the verifier still accepts the file" % f[4])
     if f[1] == "mutate" and il.startswith("ok ") and mres.startswith("ok "):
         kv = _kv(tag)
         ck, dd, orig = int(kv["ck"]), int(kv["dd"]), int(kv["orig"])
